@@ -1,7 +1,7 @@
 """C41 — Known-hosts lookup, save and reload agree and loading is idempotent.
 
 Model: lean/PV/Model/HostKeys.lean; theorems: lean/PV/Props/C41.lean; driver: lean/Driver/C41.lean (stateful).
-Correspondence: random histories (load of generated known_hosts files — plain, hashed via the real hash_host,
+Correspondence: random histories (load of generated known_hosts files — plain, hashed with the HARNESS's own HMAC over the exact bytes of the name (never through hash_host), names with upper-case characters,
 multi-host lines, repeated hosts, several key types, comments, malformed lines —, add, delete, clear, reload of the
 same file) run on a real HostKeys object and on the Lean model; after every operation lookups (every matching
 entry), check() results, keys() and all entries are compared.  HMAC is patched to a toy function for this run.
@@ -17,7 +17,8 @@ import tempfile
 
 from pv.core import REPO, exc_site, hx
 
-HOSTS = ["a", "b", "c", "web1", "10.0.0.1", "[gw]:2222", "db.example.com", "d"]
+HOSTS = ["a", "b", "c", "web1", "10.0.0.1", "[gw]:2222", "db.example.com", "d",
+         "Build-01.Example.COM", "[FE80::1C]:2222", "GATEWAY.example.com", "gateway.example.com"]
 
 
 class ToyHMAC:
@@ -32,6 +33,20 @@ class ToyHMAC:
             acc = (acc * 131 + b) % 4294967296
         salt = self.key + b"\x00" * 20
         return bytes(((acc // 256 ** (i % 4)) + salt[i] * (i + 1) + i) % 256 for i in range(20))
+
+
+def own_hash_real(name, salt_b64):
+    """`|1|salt|mac` with HMAC-SHA1 over the exact bytes of the name — computed here, never by the subject"""
+    salt = base64.b64decode(salt_b64)
+    mac = _hmac.new(salt, name.encode(), hashlib.sha1).digest()
+    return "|1|%s|%s" % (base64.b64encode(salt).decode(), base64.b64encode(mac).decode())
+
+
+def own_hash_toy(name, salt_b64):
+    """the same with the toy HMAC of the correspondence run"""
+    salt = base64.b64decode(salt_b64)
+    mac = ToyHMAC(salt, name.encode()).digest()
+    return "|1|%s|%s" % (base64.b64encode(salt).decode(), base64.b64encode(mac).decode())
 
 
 def make_keys(rng):
@@ -204,7 +219,7 @@ def run(ctx):
     from paramiko.hostkeys import HostKeys, InvalidHostKey
 
     ctx.rule = ("histories of 2..14 operations (load of one of 1..3 generated known_hosts files — 1..8 lines: plain "
-                "and hashed names, multi-host lines, repeated hosts, 10 keys of 4 types, comments, short/unknown-type/"
+                "and hashed names (hashes computed by the harness, mixed-case DNS names, IPv6 literals, bracketed host:port), multi-host lines, repeated hosts, 10 keys of 4 types, comments, short/unknown-type/"
                 "wrong-blob/marker lines, invalid base64 — with the same file loaded twice in a row 60% of the time, "
                 "add, delete, clear, hostkeys[name][type] = key, hostkeys[name] = {type: key}, save+reload) observed after every operation through lookup/check/keys for 8 host "
                 "names in plain and hashed form. distinct = distinct histories; non-trivial = a file is loaded twice")
@@ -225,13 +240,28 @@ def run(ctx):
         histories[0] = ([[("entry", [("p", "a"), ("p", "b")], 0)]], [("load", 0), ("load", 0)])
         histories[1] = ([[("entry", [("p", "a")], 0), ("entry", [("p", "a")], 1), ("entry", [("p", "b")], 2)]],
                         [("load", 0), ("load", 0), ("load", 0)])
+        # a hashed lower-case name first, the plain upper-case spelling second (same key type, different keys)
+        histories[2] = ([[("entry", [("h", "gateway.example.com", bytes(range(20)))], 0),
+                          ("entry", [("p", "GATEWAY.example.com")], 1),
+                          ("entry", [("h", "Build-01.Example.COM", bytes(range(1, 21)))], 2)]], [("load", 0), ("save-reload",)])
+        # hash_host itself: HMAC-SHA1 over the exact bytes of the name
+        for h in HOSTS:
+            salt = base64.b64encode(rng.randbytes(20)).decode()
+            try:
+                got = HostKeys.hash_host(h, salt)
+            except Exception as e:
+                ctx.fail("hash_host-escaped:" + exc_site(e), {"hostname": h}, repr(e))
+                continue
+            if got != own_hash_real(h, salt):
+                ctx.fail("hash_host-not-hmac-sha1-of-the-name", {"hostname": h, "salt": salt},
+                         "hash_host gives %s, HMAC-SHA1(salt, name) gives %s" % (got, own_hash_real(h, salt)))
         # ------------------------------------------------ correspondence run (toy HMAC)
         hkmod.HMAC = ToyHMAC
         reqs, expects = [], []
         for hi, (files, ops) in enumerate(histories):
             fmt = __import__("random").Random(hi)
             hk = HostKeys()
-            queries = HOSTS + [HostKeys.hash_host(h, base64.b64encode(bytes([i + 1] * 20)).decode())
+            queries = HOSTS + [own_hash_toy(h, base64.b64encode(bytes([i + 1] * 20)).decode())
                                for i, h in enumerate(HOSTS[:3])]
             reqs.append("reset")
             expects.append(("ok", None))
@@ -239,7 +269,7 @@ def run(ctx):
                 what = None
                 try:
                     if op[0] == "load":
-                        text, toks = render_file(fmt, files[op[1]], keys, HostKeys.hash_host)
+                        text, toks = render_file(fmt, files[op[1]], keys, own_hash_toy)
                         with open(path, "w") as f:
                             f.write(text)
                         what = {"op": "load", "file": text}
@@ -250,14 +280,14 @@ def run(ctx):
                         except InvalidHostKey:
                             expects.append(("raised", what))
                     elif op[0] == "add":
-                        s = name_str(op[1], HostKeys.hash_host)
+                        s = name_str(op[1], own_hash_toy)
                         k = keys[op[2]]
                         what = {"op": "add", "name": s, "key": k.get_name()}
                         reqs.append("add %s %s %s" % (name_tok_from_str(s), hx(k.get_name().encode()), key_tok(k)))
                         hk.add(s, k.get_name(), k)
                         expects.append(("ok", what))
                     elif op[0] == "del":
-                        s = name_str(op[1], HostKeys.hash_host)
+                        s = name_str(op[1], own_hash_toy)
                         what = {"op": "del", "name": s}
                         reqs.append("del " + name_tok_from_str(s))
                         try:
@@ -271,7 +301,7 @@ def run(ctx):
                         hk.clear()
                         expects.append(("ok", what))
                     elif op[0] == "subset":
-                        sname = name_str(op[1], HostKeys.hash_host)
+                        sname = name_str(op[1], own_hash_toy)
                         k = keys[op[2]]
                         what = {"op": "hostkeys[name][type] = key", "name": sname, "type": k.get_name()}
                         reqs.append("subset %s %s %s" % (name_tok_from_str(sname), hx(k.get_name().encode()), key_tok(k)))
@@ -281,7 +311,7 @@ def run(ctx):
                         except KeyError:
                             expects.append(("keyerror", what))
                     elif op[0] == "setitem":
-                        sname = name_str(op[1], HostKeys.hash_host)
+                        sname = name_str(op[1], own_hash_toy)
                         d = {}
                         for ki in op[2]:
                             d[keys[ki].get_name()] = keys[ki]
@@ -323,17 +353,17 @@ def run(ctx):
         for hi, (files, ops) in enumerate(histories):
             fmt = __import__("random").Random(hi)
             hk = HostKeys()
-            queries = HOSTS + [HostKeys.hash_host(h, base64.b64encode(bytes([i + 1] * 20)).decode())
+            queries = HOSTS + [own_hash_real(h, base64.b64encode(bytes([i + 1] * 20)).decode())
                                for i, h in enumerate(HOSTS[:3])]
             twice = False
             prev = None
-            case = {"files": [render_file(fmt, f, keys, HostKeys.hash_host)[0] for f in files],
+            case = {"files": [render_file(fmt, f, keys, own_hash_real)[0] for f in files],
                     "ops": [list(map(str, op)) for op in ops]}
             for oi, op in enumerate(ops):
                 ctx.dist("op:" + op[0])
                 try:
                     if op[0] == "load":
-                        text, _ = render_file(fmt, files[op[1]], keys, HostKeys.hash_host)
+                        text, _ = render_file(fmt, files[op[1]], keys, own_hash_real)
                         with open(path, "w") as f:
                             f.write(text)
                         again = prev == ("load", op[1])
@@ -366,21 +396,21 @@ def run(ctx):
                     prev = None
                     if op[0] == "add":
                         k = keys[op[2]]
-                        hk.add(name_str(op[1], HostKeys.hash_host), k.get_name(), k)
+                        hk.add(name_str(op[1], own_hash_real), k.get_name(), k)
                     elif op[0] == "del":
                         try:
-                            del hk[name_str(op[1], HostKeys.hash_host)]
+                            del hk[name_str(op[1], own_hash_real)]
                         except KeyError:
                             pass
                     elif op[0] == "clear":
                         hk.clear()
                     elif op[0] == "subset":
                         try:
-                            hk[name_str(op[1], HostKeys.hash_host)][keys[op[2]].get_name()] = keys[op[2]]
+                            hk[name_str(op[1], own_hash_real)][keys[op[2]].get_name()] = keys[op[2]]
                         except KeyError:
                             pass
                     elif op[0] == "setitem":
-                        hk[name_str(op[1], HostKeys.hash_host)] = {keys[ki].get_name(): keys[ki] for ki in op[2]}
+                        hk[name_str(op[1], own_hash_real)] = {keys[ki].get_name(): keys[ki] for ki in op[2]}
                     elif op[0] == "save-reload":
                         hk.save(path2)
                         fresh = HostKeys(path2)
